@@ -31,14 +31,20 @@ Tr == Traces[t]
 Regs == 1..Tr.nregs
 Doms == DOMAIN Tr.obs
 
-Range1(k) == IF k = "bool" THEN 0..1 ELSE (-B)..B
+(* The sample of "top" for an integer variable is -B..B, or - for the LARGE-MAGNITUDE histories (tools/hist.py
+   large_history) - the explicit sample tr.samp (0, +-1 and values around +-M with 2^25 <= M < 2^27: weights beyond the
+   precision of a float, sums still inside TLC's 32-bit integers).  Such a trace also carries its own universe bound. *)
+RangeT(tr, k) == IF k = "bool" THEN 0..1
+                 ELSE IF "samp" \in DOMAIN tr THEN {tr.samp[j] : j \in DOMAIN tr.samp} ELSE (-B)..B
+Range1(k) == RangeT(Tr, k)
+UT == IF "univ" \in DOMAIN Tr THEN Tr.univ ELSE U
 Hv(i) == Range1(Tr.kinds[i])
 RECURSIVE BoxOf(_)
 BoxOf(n) == IF n = 0 THEN {<<>>} ELSE {Append(s, v) : s \in BoxOf(n - 1), v \in Hv(n)}
 Box == BoxOf(Tr.nv)
 RECURSIVE BoxInitN(_, _)
-BoxInitN(kinds, n) == IF n = 0 THEN {<<>>} ELSE {Append(s, v) : s \in BoxInitN(kinds, n - 1), v \in Range1(kinds[n])}
-BoxInit(kinds) == BoxInitN(kinds, Len(kinds))
+BoxInitN(tr, n) == IF n = 0 THEN {<<>>} ELSE {Append(s, v) : s \in BoxInitN(tr, n - 1), v \in RangeT(tr, tr.kinds[n])}
+BoxInit(tr) == BoxInitN(tr, Len(tr.kinds))
 
 Forget(S, vs) ==      \* vs : set of variable indices
   {[i \in 1..Tr.nv |-> IF i \in vs THEN f[i] ELSE s[i]] : s \in S, f \in Box}
@@ -46,7 +52,7 @@ SeqSet(q) == {q[k] : k \in DOMAIN q}
 
 (* the concrete counterpart of one history step, as a function on W *)
 Target(st) ==
-  CASE st.op = "stmt" -> UNION {Succ(st.s, s, U, Hv) : s \in W[st.r]}
+  CASE st.op = "stmt" -> UNION {Succ(st.s, s, UT, Hv) : s \in W[st.r]}
     [] st.op = "forget" -> Forget(W[st.r], SeqSet(st.vs))
     [] st.op = "project" -> Forget(W[st.r], (1..Tr.nv) \ SeqSet(st.vs))
     [] st.op = "rename" ->   \* to[k] := from[k]; from[k] becomes unconstrained
@@ -147,7 +153,7 @@ PairJudge(st, k) ==
 
 Init == /\ t \in DOMAIN Traces
         /\ l = 0
-        /\ W = [r \in 1..Traces[t].nregs |-> LET kinds == Traces[t].kinds IN BoxInit(kinds)]
+        /\ W = [r \in 1..Traces[t].nregs |-> BoxInit(Traces[t])]
         /\ bad = {}
         /\ verdict = [d \in DOMAIN Traces[t].obs |-> "ok"]
 
